@@ -143,6 +143,13 @@ Two constructs added for `Activation.assert_is_not_vector` / `Threshold.Comparat
   (`(python expression, lean term, lean type)`: the value must be that very object - `is`); all values must have one type.
   What `d[k]` / `k in d` mean on such a list is an external of the profile as for any other dictionary.
 
+Two more for `Engine.infer_type` / `Variable.highest_membership` (profiles `blockact.py`; primitive in `Base/PyAll.lean`):
+
+* `all(e for v in l)` / `any(e for v in l)` (one generator, no condition, `l` a pure list): `List.all` / `List.any` of
+  the truth value of `e` when `e` cannot raise; otherwise `Py.allM` / `Py.anyM`, which evaluate the elements in order and
+  stop at the first false (true) one as Python does - an element behind it is not evaluated and cannot raise;
+* `with contextlib.suppress(C): <statements>` is `try: <statements> except C: pass` (the forms of `try` above).
+
 Anything outside the subset raises `Untranslatable` - the tie is then reported as broken (never silently skipped).
 """
 from __future__ import annotations
@@ -749,6 +756,30 @@ class Fn:
                 return self.bind1(self.ce(node.args[0]), lambda x: f"({x}).length", "Nat")
             if isinstance(f, ast.Name) and f.id == "bool" and len(node.args) == 1 and not node.keywords:
                 return self.truthy(self.ce(node.args[0]))
+            if (isinstance(f, ast.Name) and f.id in ("all", "any") and len(node.args) == 1 and not node.keywords
+                    and isinstance(node.args[0], ast.GeneratorExp)):
+                gen = node.args[0]
+                g = gen.generators[0]
+                if len(gen.generators) != 1 or g.ifs or g.is_async or not isinstance(g.target, ast.Name):
+                    raise Untranslatable(f"generator shape: {ast.unparse(node)}")
+                it = self.iterator(g.iter)
+                v = g.target.id
+                if v in LEAN_RESERVED:
+                    for n in ast.walk(gen.elt):
+                        if isinstance(n, ast.Name) and n.id == v:
+                            n.id = mangle(v)
+                    v = mangle(v)
+                if v in self.locals or v in self.ptypes or not it.ty.startswith("List ") or not it.pure:
+                    raise Untranslatable(f"generator variable / iterable: {ast.unparse(node)}")
+                self.ptypes[v] = elem_type(it.ty)
+                try:
+                    elt = self.truthy(self.ce(gen.elt))
+                finally:
+                    del self.ptypes[v]
+                fn = f"(fun ({v} : {elem_type(it.ty)}) => {elt.term})"
+                if elt.pure:
+                    return E(f"(List.{f.id} {paren(it.term)} {fn})", "Bool")
+                return E(f"(Py.{f.id}M {fn} {paren(it.term)})", "Bool", False)
             if isinstance(f, ast.Attribute) and f.attr == "pop" and not node.args:
                 base = self.ce(f.value)
                 raise Untranslatable("pop() as an expression must be the whole right-hand side of an assignment or an argument of append")
@@ -1157,6 +1188,12 @@ class Fn:
                 and any(match_pattern(ast.parse(p, mode="eval").body, s.items[0].context_expr, {}) for p in self.p.get("plain_with", []))):
             # a context manager without effect on values / exceptions: the block is its body
             return self.cs(list(s.body) + list(rest), k, loopk, brk)
+        if (isinstance(s, ast.With) and len(s.items) == 1 and s.items[0].optional_vars is None
+                and match_pattern(ast.parse("contextlib.suppress(_0)", mode="eval").body, s.items[0].context_expr, {})):
+            # `with contextlib.suppress(C): body` is `try: body except C: pass`
+            cls = s.items[0].context_expr.args[0]
+            tr = ast.Try(body=s.body, handlers=[ast.ExceptHandler(type=cls, name=None, body=[ast.Pass()])], orelse=[], finalbody=[])
+            return self.cs([tr] + list(rest), k, loopk, brk)
         if isinstance(s, ast.With):
             pat = ast.parse("np.nditer(_0, op_flags=[['readwrite']])", mode="eval").body
             binds = {}
